@@ -34,6 +34,7 @@ GLOBALS = ['G', 'ver', 'H', 'A', 'root-dir', 'X', 'B']
 ENVVARS = ['A', 'X', 'B', 'PATH', 'C', 'ONLYD', 'DEF', 'G', 'H', 'N1', 'PYTHONPATH', 'INSTANCE_DIR', 'Z9', 'ver']
 LAUNCH = ['LV', 'HOME', 'SECRET', 'PATH', 'PYTHONPATH', 'A', 'X', 'LD_LIBRARY_PATH', 'PYTHONHOME', 'TOKEN']
 ENAMES = ['foo', 'bar', 'environment', 'tools']
+UNCASED = ['3.11', '11_8', '_', '42', '2024.1-0']     # legal names without any cased character (their own lower-case form)
 LITS = ['x', '/opt/bin', ':', 'v-1', '.', '/', 'a b', '=', '-', '%', '(', ')s']
 
 
@@ -260,9 +261,12 @@ def gen_session(rng):
     g = gen_globals(rng)
     gall = [k for plat in PLATFORMS for k, _ in g[plat]]
     envs = {}
+    pool = list(ENAMES)
+    if rng.random() < 0.3:          # a document that names environments after versions
+        pool += rng.sample(UNCASED, 2)
     for plat in PLATFORMS:
         tab = []
-        for n in rng.sample(ENAMES, rng.randint(0, 3) if plat != 'default' else rng.randint(1, 4)):
+        for n in rng.sample(pool, rng.randint(0, 3) if plat != 'default' else rng.randint(1, 4)):
             tab.append([spell(rng, n), gen_env(rng, lk, gall)])
         envs[plat] = tab
     declared = [n for plat in PLATFORMS for n, _ in envs[plat]]
@@ -368,6 +372,17 @@ CORPUS = [
                  'comps': [{'name': 'one', 'interp': True}, {'name': 'two', 'interp': False}, {'name': 'THREE', 'interp': False}],
                  'ops': [{'op': 'node', 'platform': pl, 'nonprim': np_, 'comp': k}
                          for pl in ('default', 'p') for np_ in (False, True) for k in (0, 1, 2)]}},
+    # boundary of the name normalisation: names without any cased character, on default + p, on p only, on default only
+    {'session': {'platforms': PLATFORMS,
+                 'envs': {'default': [['3.11', [['PYVER', '3.11'], ['PREFIX', '/opt/python'], ['BIN', '$PREFIX/bin:%(G)s']]], ['_', [['U', 'u']]]],
+                          'p': [['3.11', [['PREFIX', '/gpfs/python']]], ['11_8', [['CUDA', '11.8']]]], 'q': []},
+                 'globals': {'default': [['G', 'g']], 'p': [], 'q': []}, 'sysv': SYSV0, 'launch': LAUNCH0,
+                 'comps': [{'name': '3.11', 'interp': True}, {'name': '11_8', 'interp': False}, {'name': '_', 'interp': False}],
+                 'ops': [{'op': 'get', 'platform': 'p', 'explicit': True, 'name': '3.11'},
+                         {'op': 'get', 'platform': 'q', 'explicit': False, 'name': '_'},
+                         {'op': 'replicate', 'platform': 'p'}]
+                        + [{'op': 'node', 'platform': pl, 'nonprim': np_, 'comp': k}
+                           for pl in ('default', 'p') for np_ in (False, True) for k in (0, 1, 2)]}},
 ]
 
 
